@@ -37,7 +37,7 @@ fn info(tier: Tier) -> CheckInfo {
             if tier.is_quick() { 7 } else { 9 }
         ),
         assumptions: vec![
-            "built like a release build (no overflow checks, no debug assertions)".into(),
+            "optimised build with integer overflow checks on and debug assertions off: an arithmetic overflow in the library panics (as in a debug build) instead of wrapping silently".into(),
             "the claim is the stated grammar neighbourhood, not all byte strings up to the MTU".into(),
         ],
     };
